@@ -3,7 +3,8 @@
      FLAGS <cache> <merge> <own>        0/1: which proposed repairs the model applies from here on
      DEFB <name> <version> k,kind,scale,ref,width ...      a Table B file as the independent reader parsed it (kind 0..3)
      DEFD <name> k:d1,d2,... ...                           a Table D file
-   A history line is the same text the C harness reads; file names are looked up among the DEFB/DEFD names
+     H <operation> ...                  a history: the same text the C harness reads, prefixed with H
+   File names are looked up among the DEFB/DEFD names (a name can be defined again)
    ("csv=" prefix / CSVB / CSVD: the loader that leaves the version alone).  Output: one token per operation,
    B:<d>:<type>:<scale>:<ref>:<width> | B:ABSENT | D:<d>:<seq> | D:ABSENT | M:<d> | M:ABSENT | rc=<n> | merged | V:m:l |
    U:<index>:<version> | U:NONE | CRASH (a freed entry is read: the run stops there). *)
@@ -95,5 +96,6 @@ let () = iter_lines (fun line ->
   | "FLAGS" :: [c; m; o] -> fx := { fx_cache = (c = "1"); fx_merge = (m = "1"); fx_own = (o = "1") }
   | "DEFB" :: t -> def_b t
   | "DEFD" :: t -> def_d t
-  | [] -> print_newline ()
-  | toks -> history toks)
+  | "H" :: toks -> history toks
+  | [] -> ()
+  | _ -> failwith ("bad line: " ^ line))
